@@ -141,8 +141,8 @@ struct C19 : Check {
 				else if (e == 22) s.keys = "cw" + gen_line(r, r.range(1, 8), A_LOWER) + "\x1b";
 				else s.keys = "C" + gen_line(r, r.range(0, 8), A_LOWER) + "\x1b";
 			} else if (k == 3) {
-				static const char *exs[] = {"1d", "$d", "1,3d", "%s/a/AA/g", "2pu", "g/b/d", "1,3p", "1,2p", "5", "$", "2,4>", "se hll", "se nohll", "se hl", "se nohl", "1,3y", "0pu", "u", "redo", "%d", "1,5!sort", "2r !seq 3", "=", "f"};
-				s.keys = ":" + std::string(exs[r.below(24)]) + "\n";
+				static const char *exs[] = {"1d", "$d", "1,3d", "%s/a/AA/g", "2pu", "g/b/d", "1,3p", "1,2p", "5", "$", "2,4>", "se hll", "se nohll", "se hl", "se nohl", "1,3y", "0pu", "u", "redo", "%d", "1,5!sort", "2r !seq 3", "=", "f", "1d|99p", "2pu|nosuchcmd", "%s/a/AA/g|77d", "$d|1,3p", "1,2y|0pu|88p"};
+				s.keys = ":" + std::string(exs[r.below(29)]) + "\n";
 			} else if (k == 4) {
 				static const char *b[] = {":e! G.c\n", ":e! F\n", "\x1e", ":e #\n", ":b +\n", ":b -\n"};
 				s.keys = b[r.below(6)];
